@@ -19,11 +19,17 @@ def one(rid):
         if r.returncode != 0 or t.returncode != 0:
             return rid, "invalid-after-rename", []
         alarms = []
-        for p in props:
-            c = subprocess.run(["/verif/bin/fcheck", "-repo", d, "-prop", p, "-no-evidence"], capture_output=True, text=True)
-            if c.returncode != 0:
-                lines = [l.strip() for l in c.stdout.splitlines() if l.startswith("  ")]
-                alarms.append(p + ": " + (lines[0][:200] if lines else ""))
+        c = subprocess.run(["/verif/bin/fcheck", "-repo", d, "-all", "-no-evidence"], capture_output=True, text=True)
+        cur = []
+        import re
+        for l in c.stdout.splitlines():
+            m = re.match(r"property=(C\d+) .* violations=(\d+)", l)
+            if m:
+                if int(m.group(2)) > 0:
+                    alarms.append(m.group(1) + ": " + (cur[0][:200] if cur else ""))
+                cur = []
+            elif l.startswith("  "):
+                cur.append(l.strip())
         return rid, "ok", alarms
     finally:
         shutil.rmtree(d, ignore_errors=True)
